@@ -210,7 +210,7 @@ func init() {
 							c.Sample(map[string]any{"h": h, "v": v, "start": []float64{lon0, lat0, alt0}, "end": []float64{lon1, lat1, alt1}, "ids": nIDs})
 						}
 					}},
-				{Name: "long-meridional", ShardDepth: 1, Bounds: engine.Bounds{InputDev: -1},
+				{Name: "long-meridional", ShardDepth: 3, Bounds: engine.Bounds{InputDev: -1},
 					Rule: "coarse zooms 2..6 x segments along a meridian / parallel / space diagonal between latitude classes {-85, -60, 0, 45, 85} x altitude classes crossing f=0: same oracle on long segments (rows of very different size); non-trivial = distinct segments with >= 3 voxels",
 					Body: func(c *engine.Ctx) {
 						h := int64(c.In("h", 5)) + 2
